@@ -371,7 +371,7 @@ pub fn c20_columns_narrower_iter_row() {
     sym::forget((a, b));
 }
 
-// @h prop=C20 tier=quick kind=proof inst="OwnedRegion<u8> and StringRegion: the EMPTY value in its owned forms (Vec<u8>, &Vec<u8>, [u8; 0] / String, &String) pushed onto a non-empty region" bounds="one 2-byte item, the empty value in every owned form, then a non-empty item in owned form; symbolic bytes / a 2-byte string" desc="every form of the empty value starts at the current end of the region (same index as the slice form) and reads back empty; later items are unaffected"
+// @h prop=C20 tier=quick kind=proof inst="OwnedRegion<u8> and StringRegion: the EMPTY value in its owned and array forms (Vec<u8>, &Vec<u8>, [u8; 0], &[u8; 0], &&[u8; 0] / String, &String) pushed onto a non-empty region" bounds="one 2-byte item, the empty value in every owned form, then a non-empty item in owned form; symbolic bytes / a 2-byte string" desc="every form of the empty value starts at the current end of the region (same index as the slice form) and reads back empty; later items are unaffected"
 #[cfg_attr(kani, kani::proof, kani::unwind(12))]
 pub fn c20_owned_and_string_empty_owned_forms() {
     let p = sym::bytes::<2>();
@@ -381,7 +381,10 @@ pub fn c20_owned_and_string_empty_owned_forms() {
     let i1 = step!(a, b, Vec::<u8>::new(), [0u8; 0].as_slice());
     let i2 = step!(a, b, &Vec::<u8>::new(), [0u8; 0].as_slice());
     let i3 = step!(a, b, [0u8; 0], [0u8; 0].as_slice());
-    assert!(i1 == (2, 2) && i2 == (2, 2) && i3 == (2, 2), "C20: an empty item in an owned form does not start at the current end of the region");
+    let z: [u8; 0] = [];
+    let i3r = step!(a, b, &z, [0u8; 0].as_slice());
+    let i3rr = step!(a, b, &&z, [0u8; 0].as_slice());
+    assert!(i1 == (2, 2) && i2 == (2, 2) && i3 == (2, 2) && i3r == (2, 2) && i3rr == (2, 2), "C20: an empty item in an owned form does not start at the current end of the region");
     assert!(a.index(i1).is_empty() && a.index(i3).is_empty(), "C20: an empty item in an owned form does not read back empty");
     let i4 = step!(a, b, p.to_vec(), p.as_slice());
     assert!(i4 == (2, 4) && a.index(i4)[1] == p[1], "C20: the item after empty owned forms reads differently");
